@@ -1,4 +1,5 @@
 import CfrVerif.Proofs.CliLemmas
+import CfrVerif.Proofs.CliReject
 /-!
 # C17 — the command-line program rejects malformed or unsupported input instead of solving it
 
@@ -40,7 +41,22 @@ theorem loadGame_eq (numName : Nat → Nat) (fmt : InputFormat) (kind : InputKin
       match loadRaw numName fmt kind p with
       | .error e => .error e
       | .ok (raw, sum) => fromRootCli raw sum := by
-  sorry
+  unfold loadGame loadRaw jsonFromReader gambitFromReader autoFromReader jsonFromState gambitFromAst
+  cases kind <;> cases fmt <;> cases hj : p.json <;> cases hg : p.gambit <;> simp <;>
+    (rename_i f; rcases hr : gambitRaw numName f with e | ⟨raw, sum⟩ <;> simp)
+
+/-- the tree the selected reader hands to `from_root` has component lists of equal lengths -/
+theorem loadRaw_shape (numName : Nat → Nat) (fmt : InputFormat) (kind : InputKind) (p : Parsed ℝ)
+    (hshape : p.ShapeOK) (raw : Raw ℝ) (sum : ℝ)
+    (h : loadRaw numName fmt kind p = .ok (raw, sum)) : Raw.Shape raw := by
+  obtain ⟨hJ, hG⟩ := hshape
+  unfold loadRaw at h
+  cases kind <;> cases fmt <;> cases hj : p.json <;> cases hg : p.gambit <;>
+    simp only [hj, hg] at h <;>
+    first
+    | (cases h; done)
+    | (cases h; exact Rej.jshape _ (hJ _ hj))
+    | exact Rej.gambitRaw_shape numName _ (hG _ hg) raw sum h
 
 /-- **it never reports a solution for a game it could not represent** -/
 theorem cli_ok_implies_valid_game (env : Env) (sched : Sched ℝ) (draw : DrawFn ℝ)
@@ -49,7 +65,21 @@ theorem cli_ok_implies_valid_game (env : Env) (sched : Sched ℝ) (draw : DrawFn
     (h : cliMain env sched draw numName o fmt kind p = .ok out) :
     ∃ raw sum g, loadRaw numName fmt kind p = .ok (raw, sum) ∧ fromRoot raw = .ok g ∧ Valid raw ∧
       GameWF g := by
-  sorry
+  unfold cliMain at h
+  rcases hl : loadGame numName fmt kind p with e | ⟨g, sum⟩
+  · rw [hl] at h; cases h
+  · rw [loadGame_eq] at hl
+    rcases hr : loadRaw numName fmt kind p with e | ⟨raw, sum'⟩
+    · rw [hr] at hl; cases hl
+    · rw [hr] at hl
+      simp only [fromRootCli] at hl
+      rcases hf : fromRoot raw with e | g'
+      · rw [hf] at hl; cases hl
+      · rw [hf] at hl
+        cases hl
+        have hs : Raw.Shape raw := loadRaw_shape numName fmt kind p hshape raw sum hr
+        exact ⟨raw, sum, g, rfl, hf, (fromRoot_ok_iff_valid raw hs).1 ⟨g, hf⟩,
+          fromRoot_ok_wf raw hs g hf⟩
 
 /-- **rejections by category** -/
 theorem cli_rejects (env : Env) (sched : Sched ℝ) (draw : DrawFn ℝ) (numName : Nat → Nat)
@@ -71,7 +101,31 @@ theorem cli_rejects (env : Env) (sched : Sched ℝ) (draw : DrawFn ℝ) (numName
       gameSolve env sched g o.method o.iters o.maxRegret o.parallel (some o.discount.intoParams) draw
         = .error e →
       cliMain env sched draw numName o fmt kind p = .error (.solveError e)) := by
-  sorry
+  refine ⟨?_, ?_, ?_, ?_, ?_, ?_⟩
+  · intro hf hj
+    subst hf
+    unfold cliMain loadGame jsonFromReader
+    cases kind <;> simp [hj]
+  · intro hf hg
+    subst hf
+    unfold cliMain loadGame gambitFromReader
+    cases kind <;> simp [hg]
+  · intro hf hk hj hg
+    subst hf; subst hk
+    unfold cliMain loadGame autoFromReader
+    simp [hj, hg]
+  · intro f hf hg hp
+    subst hf
+    unfold cliMain loadGame gambitFromReader gambitFromAst gambitRaw
+    cases kind <;> simp [hg, hp]
+  · intro raw sum e h1 h2
+    unfold cliMain
+    rw [loadGame_eq, h1]
+    simp [fromRootCli, h2]
+  · intro g sum e h1 h2
+    unfold cliMain
+    rw [h1]
+    simp [runGame, h2]
 
 /-- **the Gambit-specific checks**: for a two-player file whose tables can be built, the reader
 fails with exactly the documented category — a duplicate infoset name, a number/name clash,
@@ -88,6 +142,179 @@ theorem gambit_rejects (numName : Nat → Nat) (f : EfgFile ℝ) (hp : f.players
       ∃ n1 n2 ls, t.one.resolve numName = .ok n1 ∧ t.two.resolve numName = .ok n2 ∧
         Efg.leaves t.outcomes f.root (0, 0) = .ok ls ∧ notConstantSum ls = false ∧
         sum = constantSum ls) := by
-  sorry
+  have heq := Rej.gambitRaw_eq numName f hp t ht
+  refine ⟨?_, ?_, ?_⟩
+  · intro h
+    rcases h1 : t.one.resolve numName with e | n1
+    · exact ⟨e, by rw [heq, h1], Rej.resolve_error numName _ e h1⟩
+    · rcases h with h | h
+      · rw [Rej.resolve_dup numName _ h] at h1; cases h1
+      · refine ⟨.duplicateInfosetName, ?_, Or.inl rfl⟩
+        rw [heq, h1, Rej.resolve_dup numName _ h]
+  · intro n1 n2 ls h1 h2 h3 h4
+    rw [heq, h1, h2, h3]
+    simp [h4]
+  · intro raw sum h
+    rw [heq] at h
+    rcases h1 : t.one.resolve numName with e | n1
+    · rw [h1] at h; cases h
+    · rcases h2 : t.two.resolve numName with e | n2
+      · rw [h1, h2] at h; cases h
+      · rcases h3 : Efg.leaves t.outcomes f.root (0, 0) with e | ls
+        · rw [h1, h2, h3] at h; cases h
+        · rw [h1, h2, h3] at h
+          simp only at h
+          by_cases h4 : notConstantSum ls = true
+          · rw [if_pos h4] at h; cases h
+          · rw [if_neg h4] at h
+            split at h
+            · cases h
+            · cases h
+              exact ⟨n1, n2, ls, rfl, rfl, rfl, by simpa using h4, rfl⟩
 
+/-! ## non-vacuity: the hypotheses are satisfiable and each rejection occurs -/
+namespace C17
+
+/-- `c "" 1 "" { "0" 1/2 "1" 1/2 } 0` over `t "" 1 "" { 0 0 }` and `t "" 2 "" { 1 1 }` : pair sums
+`0` and `2` over a payoff range of `1` for player one -/
+noncomputable def ncsFile : EfgFile ℝ :=
+  ⟨2, .chance 1 [0, 1] [1/2, 1/2] [.term 1 [0, 0], .term 2 [1, 1]] 0 none⟩
+
+/-- the hypotheses of the second conjunct of `gambit_rejects` hold for it, so it is rejected as not
+constant-sum -/
+example : gambitRaw id ncsFile = .error .notConstantSum := by
+  have ht : Tables.run ({} : Tables ℝ) ncsFile.root.visits =
+      .ok ⟨{}, {}, [(1, (0, 0)), (2, (1, 1))]⟩ := by
+    simp [ncsFile, Efg.visits, Efg.visitsL, Tables.run, Tables.step, Tables.insertOutcome,
+      Tables.insertOptOutcome, toPair]
+  refine (gambit_rejects id ncsFile rfl _ ht).2.1 [] [] [((1:ℝ), (1:ℝ)), (0, 0)] ?_ ?_ ?_ ?_
+  · simp [PNames.resolve, hasDupName]
+  · simp [PNames.resolve, hasDupName]
+  · simp [ncsFile, Efg.leaves, Efg.leavesL, stepCum, assocFind, addPays]
+  · simp [notConstantSum, pairSum, maxOf, minOf, fmax_eq_max, fmin_eq_min]
+
+/-- two infosets of player one (numbers `1` and `2`) both named `6` -/
+noncomputable def dupFile : EfgFile ℝ :=
+  ⟨2, .player 1 1 (some 6) [4, 5]
+      [.player 1 2 (some 6) [4, 5] [.term 1 [0, 0], .term 1 [0, 0]] 0 none, .term 1 [0, 0]] 0 none⟩
+
+/-- the hypothesis of the first conjunct of `gambit_rejects` holds for it -/
+example : ∃ e, gambitRaw id dupFile = .error e ∧
+    (e = .duplicateInfosetName ∨ e = .numberNameClash) := by
+  have ht : Tables.run ({} : Tables ℝ) dupFile.root.visits =
+      .ok ⟨⟨[(2, 6), (1, 6)], [2, 1]⟩, {}, [(1, (0, 0)), (1, (0, 0)), (1, (0, 0))]⟩ := by
+    simp [dupFile, Efg.visits, Efg.visitsL, Tables.run, Tables.step, Tables.insertOutcome,
+      Tables.insertOptOutcome, toPair, PNames.note]
+  exact (gambit_rejects id dupFile rfl _ ht).1 (Or.inl (by simp [hasDupName]))
+
+/-- a three-player file: fourth conjunct of `cli_rejects` -/
+example (env : Env) (sched : Sched ℝ) (draw : DrawFn ℝ) (o : CliOpts ℝ) (kind : InputKind) :
+    cliMain env sched draw id o .gambit kind ⟨none, some ⟨3, .term 1 [0, 0, 0]⟩⟩
+      = .error .playerCount :=
+  (cli_rejects env sched draw id o .gambit kind ⟨none, some ⟨3, .term 1 [0, 0, 0]⟩⟩).2.2.2.1
+    _ rfl rfl (by decide)
+
+/-- a JSON tree with a player node without actions: fifth conjunct of `cli_rejects` -/
+example (env : Env) (sched : Sched ℝ) (draw : DrawFn ℝ) (o : CliOpts ℝ) (kind : InputKind) :
+    cliMain env sched draw id o .json kind ⟨some (.player true 1 [] []), none⟩
+      = .error (.gameError .emptyPlayer) := by
+  refine (cli_rejects env sched draw id o .json kind ⟨some (.player true 1 [] []), none⟩).2.2.2.2.1
+    (.player true 1 [] []) 0 _ ?_ ?_
+  · cases kind <;> simp [loadRaw, JState.toRaw, JState.toRawL, sortBy]
+  · simp [fromRoot, compile]
+
+/-- one decision of player one (unnamed infoset `1`, actions listed as `1`, `0`) over two
+terminals with payoffs `(1, -1)` and `(-1, 1)` : constant sum `0` -/
+noncomputable def okFile : EfgFile ℝ :=
+  ⟨2, .player 1 1 none [1, 0] [.term 1 [1, -1], .term 2 [-1, 1]] 0 none⟩
+
+noncomputable def okParsed : Parsed ℝ := ⟨none, some okFile⟩
+
+theorem okParsed_shape : okParsed.ShapeOK := by
+  constructor
+  · intro s h; cases h
+  · intro f h; cases h; simp [okFile, Efg.ShapeOK, Efg.ShapeOKL]
+
+theorem okTables : Tables.run ({} : Tables ℝ) okFile.root.visits =
+    .ok ⟨⟨[], [1]⟩, {}, [(1, (1, -1)), (2, (-1, 1))]⟩ := by
+  simp [okFile, Efg.visits, Efg.visitsL, Tables.run, Tables.step, Tables.insertOutcome,
+    Tables.insertOptOutcome, toPair, PNames.note]
+
+/-- the reader sorts the actions and subtracts the offset -/
+theorem okLoad : loadRaw id .gambit .stdin okParsed =
+    .ok (.player true 1 [0, 1] [.term (-1), .term 1], 0) := by
+  simp only [loadRaw, okParsed]
+  rw [Rej.gambitRaw_eq id okFile rfl _ okTables]
+  simp [PNames.resolve, hasDupName]
+  have hl : Efg.leaves [(1, ((1:ℝ), (-1:ℝ))), (2, (-1, 1))] okFile.root (0, 0) =
+      .ok [((-1:ℝ), (1:ℝ)), (1, -1)] := by
+    simp [okFile, Efg.leaves, Efg.leavesL, stepCum, assocFind, addPays]
+  rw [hl]
+  have hn : notConstantSum [((-1:ℝ), (1:ℝ)), (1, -1)] = false := by
+    simp [notConstantSum, pairSum, maxOf, minOf, fmax_eq_max, fmin_eq_min]
+    norm_num
+  have hc : constantSum [((-1:ℝ), (1:ℝ)), (1, -1)] = 0 := by
+    simp [constantSum, pairSum, maxOf, minOf, fmax_eq_max, fmin_eq_min]
+    norm_num
+  simp only [hn, hc]
+  simp [okFile, Efg.toRaw, Efg.toRawL, nodePayoff, assocFind, sortBy, insertBy, actionLt]
+
+/-- the third conjunct of `gambit_rejects` applies to it -/
+example : ∃ n1 n2 ls, PNames.resolve id ⟨[], [1]⟩ = .ok n1 ∧ PNames.resolve id {} = .ok n2 ∧
+    Efg.leaves [(1, ((1:ℝ), (-1:ℝ))), (2, (-1, 1))] okFile.root (0, 0) = .ok ls ∧
+    notConstantSum ls = false ∧ (0 : ℝ) = constantSum ls := by
+  have h : gambitRaw id okFile = .ok (.player true 1 [0, 1] [.term (-1), .term 1], 0) := by
+    have := okLoad
+    simpa [loadRaw, okParsed] using this
+  exact (gambit_rejects id okFile rfl _ okTables).2.2 _ _ h
+
+noncomputable def okGame : Game ℝ :=
+  ⟨[], [⟨1, [0, 1], none⟩], [], [], [], .player true 0 [.term (-1), .term 1]⟩
+
+theorem okFromRoot : fromRoot (.player true 1 [0, 1] [.term (-1 : ℝ), .term 1]) = .ok okGame := by
+  have hd : (List.eraseDupsBy (fun x1 x2 : Nat => x1 == x2) [0, 1]).length = 2 := by decide
+  simp [fromRoot, compile, compileActions, registerPlayer, BState.infos, BState.singles,
+    BState.setInfos, Prev.get, okGame, List.eraseDups, hd]
+
+theorem okLoadGame : loadGame id .gambit .stdin okParsed = .ok (okGame, 0) := by
+  rw [loadGame_eq, okLoad]
+  simp [fromRootCli, okFromRoot]
+
+theorem okAssemble (info : StrategiesInfo ℝ) (one two : Strat ℝ) :
+    ∃ out, assemble okGame 0 info one two = .ok out := by
+  have h1 : strategyOfNamed (asNamed okGame.p1 okGame.s1 one) ≠ none := by
+    cases one <;> simp [strategyOfNamed, asNamed, okGame, hasDupNat]
+  have h2 : strategyOfNamed (asNamed okGame.p2 okGame.s2 two) ≠ none := by
+    simp [strategyOfNamed, asNamed, okGame, hasDupNat]
+  unfold assemble
+  rcases h3 : strategyOfNamed (asNamed okGame.p1 okGame.s1 one) with _ | s1
+  · exact absurd h3 h1
+  · rcases h4 : strategyOfNamed (asNamed okGame.p2 okGame.s2 two) with _ | s2
+    · exact absurd h4 h2
+    · exact ⟨_, rfl⟩
+
+/-- the hypothesis of `cli_ok_implies_valid_game` is satisfiable: with one thread the program
+prints a result for this file, whatever the solver, the oracle and the remaining options -/
+theorem okMain (env : Env) (sched : Sched ℝ) (draw : DrawFn ℝ) (o : CliOpts ℝ)
+    (ho : o.parallel = 1) :
+    ∃ out, cliMain env sched draw id o .gambit .stdin okParsed = .ok out := by
+  unfold cliMain
+  rw [okLoadGame]
+  simp only [runGame, gameSolve, Env.threads, ho]
+  simp only [ne_eq, one_ne_zero, not_false_eq_true, if_true]
+  cases o.method <;> simp only [report] <;> split_ifs <;> exact okAssemble _ _ _
+
+/-- … and its conclusion is about the tree and the game computed above -/
+example (env : Env) (sched : Sched ℝ) (draw : DrawFn ℝ) (o : CliOpts ℝ) (ho : o.parallel = 1) :
+    Valid (.player true 1 [0, 1] [.term (-1 : ℝ), .term 1]) ∧ GameWF okGame := by
+  obtain ⟨out, h⟩ := okMain env sched draw o ho
+  obtain ⟨raw, sum, g, h1, h2, h3, h4⟩ :=
+    cli_ok_implies_valid_game env sched draw id o .gambit .stdin okParsed okParsed_shape out h
+  rw [okLoad] at h1
+  cases h1
+  rw [okFromRoot] at h2
+  cases h2
+  exact ⟨h3, h4⟩
+
+end C17
 end Cfr
